@@ -17,9 +17,10 @@ unproductive ones included) are compared bit for bit with the extracted MIRROR o
 (theories/C17/CostMirror.v), proved for all grammars and cost functions to terminate and to return the true
 minimum / maximum / u16::MAX for unbounded (C17_min_costs_fixed_exact, C17_max_costs_fixed_exact); a hang or a
 panic of the implementation where the mirror returns values is a violation; no known-finding class applies.
-COSTS_FIXED = True (the original functions): the four recorded defect classes are matched as known findings.
+COSTS_FIXED = False (the original functions): the four recorded defect classes are matched as known findings.
 """
 import itertools
+import os
 from vlib import core, cfg
 from gen import grammars as G
 from gen import c17gen as CG
@@ -29,7 +30,10 @@ U16MAX = 65535
 # False: /repo has the ORIGINAL rule_min_costs / rule_max_costs (known findings C17-min-cycle, C17-min-unproductive,
 #        C17-max-recursive, C17-max-early are expected and matched);
 # True:  /repo has the repaired functions of notes/C17-costs-fix.diff: exact comparison with the proved mirror, no known_key.
-COSTS_FIXED = True
+COSTS_FIXED = False
+# development aid (tools/scratch_eval.sh runs): GV_C17_COSTS_FIXED=1/0 overrides the flag for one process
+if os.environ.get("GV_C17_COSTS_FIXED") in ("0", "1"):
+    COSTS_FIXED = os.environ["GV_C17_COSTS_FIXED"] == "1"
 
 K_FOLLOW = "FOLLOW: symbols after a nullable rule are not looked through (one-symbol lookahead)"
 K_MIN_CYCLE = "min cost: iteration never terminates on a derivation cycle of productive rules"
@@ -723,7 +727,9 @@ def run(ctx):
         im = Impl(o)
         mm = models[i].mm[0] if models[i].mm else "?"
         suspicious = (not im.ok) or any(k in im.flags for k in ("MSHANG", "MAXHANG")) or ("MINHANG" in im.flags and (COSTS_FIXED or mm != "diverges"))
-        if suspicious:
+        if suspicious and ctx.hist.get("rerun_alone", 0) >= 12:
+            ctx.count("rerun_alone_skipped (more than 12 suspicious cases: first outcome kept)")
+        elif suspicious:
             ctx.count("rerun_alone")
             o2 = core.run_lines([exe] + args, [lines[i]], shards=1,
                                 env={"GVH_COST_TIMEOUT_MS": "10000", "GVH_CASE_TIMEOUT_MS": "60000"})[0]
